@@ -10,6 +10,8 @@ dedicated ICT line.  One line fault; four variants that differ only in the ICT /
   switch-cut     the ICT line to an intelligent switch of the faulted section's boundary out -> >= T
   overlap        as sensor-cut, and a second ICT line (on the redundant backbone) fails at the same time and is
                  repaired before the power fault: the sensor is still cut off                      -> >= T
+  sensor-cut-other-repair  as sensor-cut, and another line (other section), failed two increments earlier, is back in service
+                 while the manual sectioning time of the main fault is running                      -> >= T
   sensor-cut-swfail  as sensor-cut, and the main controller has a software failure (cured by a new signal within
                  seconds) one increment after the fault, while the section is being isolated by hand  -> >= T
 """
@@ -48,7 +50,8 @@ def gen(rng, n):
         fl = rng.randrange(1, nl) if nl > 1 else 0
         dt = rng.choice([F(1, 2), F(1, 4)])
         cases.append({"kind": "timing", "spec": spec, "devices": devices, "fault": [rng.randint(2, 4), f"F0L{fl}", "5"], "dt": str(dt),
-                      "variants": ["healthy", "ctrl-repair", "sensor-cut", "switch-cut", "overlap", "sensor-cut-swfail"]})
+                      "other": rng.randrange(8),
+                      "variants": ["healthy", "ctrl-repair", "sensor-cut", "switch-cut", "overlap", "sensor-cut-swfail", "sensor-cut-other-repair"]})
     return cases
 
 
@@ -90,7 +93,7 @@ def run_variant(case, variant):
     faulted = ps.get_comp(lname)
     devices = case["devices"]
     cut = None
-    if variant in ("sensor-cut", "overlap", "sensor-cut-swfail"):
+    if variant in ("sensor-cut", "overlap", "sensor-cut-swfail", "sensor-cut-other-repair"):
         cut = devices.index(f"S{lname}")
 
     elif variant == "switch-cut":
@@ -103,6 +106,15 @@ def run_variant(case, variant):
         ps.controller.remaining_repair_time = Time(F(100))
 
     saved = {}
+    other = None
+    if variant == "sensor-cut-other-repair":
+        cands = [l for l in ps.lines if l is not faulted and not l.is_backup and l.section is not faulted.section]
+        if not cands or T < 2 * dt:
+            return None
+        other = cands[case.get("other", 0) % len(cands)]
+        k_other = max(1, k0 - 2)
+        # back in service one or two increments after the main fault, strictly inside its manual sectioning time
+        other_rep = (k0 - k_other + 2) * dt      # (the increment of the fault already counts one step down)
 
     def cb(ps, prev_time, curr_time):
         k = int(round(curr_time.get_hours() / dt))
@@ -117,6 +129,11 @@ def run_variant(case, variant):
         if k == k0:
             faulted.repair_time_dist = net.FixedDist(F(rep))
             faulted.fail(curr_time - prev_time)
+        if variant == "sensor-cut-other-repair" and other is not None and k == k_other:
+            # another line, failed earlier, whose repair is completed while the manual sectioning time of the main fault is running:
+            # the poll its repair triggers must not shorten that time
+            other.repair_time_dist = net.FixedDist(other_rep)
+            other.fail(curr_time - prev_time)
         if variant == "sensor-cut-swfail":
             # while the fault is being sectioned by hand, the main controller has a software failure (real draw: rate raised for
             # one increment, generator answering "no hardware failure, software failure, cured by the new signal"); its short
